@@ -365,6 +365,11 @@ func (f *frame) contractCall(callee *ssa.Function, spec *FuncSpec, args []Val, i
 // non-escaping local allocations of the active frames.
 func (f *frame) havocAllPreservingLocals(st *State, in, why string) {
 	vc := f.vc
+	if f.curBlock != nil && f.inDeclLoop(f.curBlock) {
+		// a havoc of all memory inside a loop whose frame was declared would
+		// silently exceed that frame: the loop cannot be decided this way
+		vc.unsupported("spec: %s inside a loop with a declared assigns frame havocs all memory (give the callee a frame, or drop the loop-level assigns)", why)
+	}
 	pre := st.Clone()
 	var keep []string
 	for fr := f; fr != nil; fr = nil {
